@@ -10,6 +10,8 @@ sys.path.insert(0, os.path.dirname(os.path.dirname(os.path.abspath(__file__))))
 import c01  # noqa: E402
 from common import Ctx  # noqa: E402
 
+LEAN_TARGETS = ["QuriVerif.Props.C07", "QuriVerif.Driver.C07"]
+
 
 def enc_label(pairs) -> str:
     return ",".join(f"{i}:{p}" for i, p in pairs) if pairs else "I"
@@ -354,7 +356,7 @@ def correspond(ctx: Ctx):
                 add(f"c07bsv {enc_label(order[a])}", ("ok", f"{va.x} {va.z}"), "bsv", order[a])
     for empty in (frozenset(), [], (), set()):
         add("c07meas ", safe(lambda: bitwise_commuting_pauli_measurement_circuit(empty)), "meas-empty", type(empty).__name__)
-    resp = ctx.driver(reqs)
+    resp = ctx.driver(reqs, entry="DriverC07.lean")
     for (real, what, inp), r in zip(checks, resp):
         ctx.case((what.split(":")[0] if what.startswith("group") else what, repr(inp)), nontrivial=bool(inp),
                  sample={"what": what, "input": str(inp)[:200], "model": r[:200]})
@@ -744,7 +746,7 @@ def run(ctx: Ctx, replay=None) -> int:
         "Found/Gate.lean matrices for H, Sdag, Pauli (cross-checked in C01)",
     ]
     ctx.assumptions = ["labels are valid (one Pauli per index)"]
-    ok = ctx.prove(["QuriVerif.Props.C07", "QuriVerif.Driver.All"], ["QuriVerif.Props.C07"])
+    ok = ctx.prove(["QuriVerif.Props.C07", "QuriVerif.Driver.C07"], ["QuriVerif.Props.C07"])
     if ok:
         names = [f"QV.Props.C07.{n}" for _, n, _ in ctx.count_obligations(["QuriVerif.Props.C07"])]
         ctx.audit(names, ["QuriVerif.Props.C07"])
